@@ -617,3 +617,50 @@ def check_sentence_split(ctx: Ctx) -> None:
     dflt = param_default(fac, "min_line_len")
     ctx.ob("R-SENT-split", f"{fac.qual} :: min_line_len defaults to DEFAULT_MIN_LINE_LEN", dflt is not None and norm(dflt) == "DEFAULT_MIN_LINE_LEN" and isinstance(ml, int) and ml > 0,
            f"the merge threshold is the documented minimum line length ({ml})", where(fac, fac.node))
+
+
+def check_paragraph_independence(ctx: Ctx) -> None:
+    """fill_text wraps each paragraph with the same width and indents: nothing accumulates from paragraph to paragraph."""
+    repo, prog = ctx.repo, ctx.prog
+    ft = repo.func("flowmark.linewrapping.text_filling:fill_text")
+    wp = repo.func(f"{TW}:wrap_paragraph")
+    flow = prog.flow(ft)
+    loops = [h for h in flow.cfg.nodes if h.kind == "for" and any(prog.resolve_call(ft, c) == [wp] for m in flow.loop_body_nodes(h) for c in flow.calls_in(m))]
+    ctx.require("R-LOOPSTATE", "paragraph loop of fill_text", len(loops), 1)
+    for h in loops:
+        carried = flow.loop_carried(h)
+        # the hanging-indent modes switch the first-line indent to the continuation indent after the first paragraph:
+        # a one-way assignment from a loop-invariant value, not an accumulation
+        allowed = set()
+        for v in carried:
+            defs_in_body = [d for n in flow.loop_body_nodes(h) for d in flow.defs_at[n] if d.var == v]
+            if defs_in_body and all(d.kind == "assign" and d.value is not None and
+                                    not (prog.slice(ft, d.value, d.node).defs & set(defs_in_body)) for d in defs_in_body):
+                inv = True
+                for d in defs_in_body:
+                    for dd in prog.slice(ft, d.value, d.node).defs:
+                        if dd.node in flow.loop_body_nodes(h):
+                            inv = False
+                if inv:
+                    allowed.add(v)
+        # output accumulators: only ever appended to, never read inside the loop
+        for v in carried:
+            defs_in_body = [d for n in flow.loop_body_nodes(h) for d in flow.defs_at[n] if d.var == v]
+            appends_only = defs_in_body and all(d.kind == "mutate" and isinstance(d.value, ast.Call) and isinstance(d.value.func, ast.Attribute)
+                                                and d.value.func.attr in ("append", "extend") for d in defs_in_body)
+            other_reads = False
+            for n in flow.loop_body_nodes(h):
+                for ex in flow.node_exprs(n):
+                    for sub in walk_no_nested(ex):
+                        if isinstance(sub, ast.Name) and sub.id == v and isinstance(sub.ctx, ast.Load):
+                            from ..loader import parent as _parent
+
+                            pp = _parent(sub)
+                            if not (isinstance(pp, ast.Attribute) and pp.attr in ("append", "extend")):
+                                other_reads = True
+            if appends_only and not other_reads:
+                allowed.add(v)
+        bad = sorted(carried - allowed)
+        ctx.ob("R-LOOPSTATE", f"{ft.qual} :: paragraphs are wrapped independently", not bad,
+               f"values that accumulate from one paragraph to the next: {bad or 'none'} (loop-carried: {sorted(carried)}; "
+               f"re-assigned from loop-invariant values only: {sorted(allowed)})", where(ft, h))
